@@ -190,7 +190,9 @@ func (st *SymbolTable) Resolve(name string) (symbol *Symbol, ok bool) {
 // DefineLocal adds a new symbol with ScopeLocal in the current scope.
 func (st *SymbolTable) DefineLocal(name string) (*Symbol, bool) {
 	symbol, ok := st.store[name]
-	if ok {
+	// a builtin symbol is cached in the store when it is resolved, it is not a
+	// definition of the scope and it is shadowed by the new local symbol.
+	if ok && symbol.Scope != ScopeBuiltin {
 		return symbol, true
 	}
 
